@@ -147,6 +147,11 @@ def _run_case(facet, pid, spec, stats, tier, exclusions=True):
             info = facet.check(spec) or {}
     except CaseTimeout:
         stats["inconclusive"].append(spec)
+        if len(stats["inconclusive"]) > 4:
+            stats["harness_error"] = "more than 4 cases of facet {} hit the "\
+                "watchdog in one shard: size bounds are wrong, or the code "\
+                "under test hangs".format(facet.name)
+            raise HarnessError(stats["harness_error"])
         return
     except Exception as exc:  # noqa
         kind, label = signature(exc)
